@@ -83,9 +83,17 @@ func switchToParentThread(L *LState, nargs int, haserror bool, kill bool) {
 	if parent == nil {
 		L.RaiseError("can not yield from outside of a coroutine")
 	}
+	// the values move only if the registry of the resumer takes the status and all of them: an
+	// overflow in the middle of the transfer would leave this thread half suspended. Without room
+	// the values are dropped, this thread suspends or ends as usual and the resumer gets the error.
+	fits := parent.reg.hasRoom(nargs + 1)
+	if !fits {
+		L.SetTop(L.GetTop() - intMin(nargs, L.GetTop()))
+		nargs = 0
+	}
 	L.G.CurrentThread = parent
 	L.Parent = nil
-	if !L.wrapped {
+	if !L.wrapped && fits {
 		if haserror {
 			parent.Push(LFalse)
 		} else {
@@ -99,6 +107,9 @@ func switchToParentThread(L *LState, nargs int, haserror bool, kill bool) {
 	L.reg.SetTop(L.reg.Top() - offset) // remove 'yield' function(including tailcalled functions)
 	if kill {
 		L.kill()
+	}
+	if !fits {
+		parent.registryOverflow()
 	}
 }
 
@@ -153,6 +164,11 @@ func threadRun(L *LState) {
 
 	defer func() {
 		if rcv := recover(); rcv != nil {
+			if L.Parent == nil {
+				// raised in the resumer after this thread has suspended or ended (switchToParentThread):
+				// not an error of this thread
+				panic(rcv)
+			}
 			L.closeUpvalues(0) // every frame of this thread dies with the error
 			var lv LValue
 			if v, ok := rcv.(*ApiError); ok {
